@@ -564,6 +564,21 @@ def check_ma_prep(case: dict, idx: int, algos=("maddpg", "ippo")) -> List[dict]:
     norm = bool(case["norm"])
     lc = leadclass(case["lead"])
     exp = expected(case)
+    # a further agent c_0, FIRST in the agent list, whose space has the same type and shapes but other value attributes
+    # (number of categories, bounds): every agent's observation must be prepared with that agent's OWN space
+    def variant_sub(s):
+        v = dict(s)
+        if s["k"] == "box":
+            v["lo"], v["hi"] = s["lo"] - 1, 2 * s["hi"] + 3
+        elif s["k"] in ("disc", "md"):
+            v["nvec"] = [n + 2 for n in s["nvec"]]
+        return v
+    vcase = dict(case, subs=[variant_sub(s) for s in case["subs"]])
+    vspace = make_space(vcase, [d if s["k"] == "box" else None for s, d in zip(vcase["subs"], dtypes)])
+    def vobs():
+        arrs = [np.full(tuple(case["lead"]) + tuple(s["shape"]), (s["lo"] if s["k"] == "box" else 0), dtype=np.dtype(d))
+                for s, d in zip(vcase["subs"], dtypes)]
+        return arrs[0] if case["kind"] == "leaf" else ({KEYS[j]: a for j, a in enumerate(arrs)} if case["kind"] == "dict" else tuple(arrs))
     # agent i receives the case's rows rotated by i (row r of agent i = row (r+i) mod rows of the case)
     def obs_for(i):
         arrs = [leaf_array(s, case["lead"], xs, d) for s, xs, d in zip(case["subs"], case["x"], dtypes)]
@@ -584,11 +599,16 @@ def check_ma_prep(case: dict, idx: int, algos=("maddpg", "ippo")) -> List[dict]:
                       "replay": {"check": "ma_prep", "idx": idx, "algos": list(algos), "case": case}})
 
     obs = {a: obs_for(i) for i, a in enumerate(ids)}
+    hetero = repr(vspace) != repr(space)
+    all_ids = (["c_0"] + ids) if hetero else ids
+    all_spaces = ([vspace] + [space] * 3) if hetero else [space] * 3
+    if hetero:
+        obs = dict([("c_0", vobs())] + list(obs.items()))
     for algo in algos:
         # "base": MultiAgentRLAlgorithm.preprocess_observation itself, bound to a real IPPO agent (cheaper to build
         # than MADDPG, which is used in the thorough tier)
         try:
-            agent = ma_agent("ippo" if algo == "base" else algo, ids, [space] * 3, normalize_images=norm)
+            agent = ma_agent("ippo" if algo == "base" else algo, all_ids, all_spaces, normalize_images=norm)
         except Exception:
             continue
         func = "multiagent.preprocess_observation" if algo != "ippo" else "ippo.preprocess_observation"
